@@ -9,7 +9,7 @@ Stage K, for every generated (module, value, codec):
 """
 from .. import core, impl
 from ..codecs import MODELLED, RT_CODECS, value_tags, py_equal, impl_answer_enc, impl_answer_dec
-from ..gen import Gen, Opts, module_text, ty_sx, val_sx, canon_py, features
+from ..gen import Gen, Opts, module_text, ty_sx, val_sx, canon_py, features, is_modelled
 
 CODECS = ['ber', 'der', 'per', 'uper', 'oer']
 CANONICAL = ('der', 'per', 'uper', 'oer')
@@ -49,10 +49,11 @@ def run(ctx):
                          'distinct_nontrivial = distinct (type,value) pairs whose type has a constraint, a container or an extension marker')
     ntypes = ctx.n(450, 9000)
     opts = Opts(big_lengths=0.03 if ctx.quick() else 0.08, max_depth=3 if ctx.quick() else 4)
+    opts_ext = Opts(big_lengths=0.02, max_depth=3, kinds=opts.kinds + ['real', 'oid', 'set', 'setof', 'set', 'setof'])
     cases = []
     feat = {}
     for i in range(ntypes):
-        g = Gen(rng, opts)
+        g = Gen(rng, opts if i % 4 else opts_ext)
         t = g.type()
         text = module_text([('A', t)])
         features(t, feat)
@@ -63,6 +64,8 @@ def run(ctx):
     reqs = []
     index = {}
     for ci, (t, text, vals) in enumerate(cases):
+        if not is_modelled(t):
+            continue
         tsx = ty_sx(t)
         for vi, v in enumerate(vals):
             vsx = val_sx(t, v)
@@ -85,7 +88,7 @@ def run(ctx):
                     ctx.violation('compiler raised a foreign exception on a valid module', {'codec': codec, 'module': text, 'error': spec})
                 continue
             for vi, v in enumerate(vals):
-                ctx.case((ty_sx(t), val_sx(t, v), codec), nontrivial=nontrivial_type)
+                ctx.case((text, repr(v), codec), nontrivial=nontrivial_type)
                 tags = value_tags(t, v, codec)
                 r = impl.encode(spec, 'A', v)
                 ctx.count('%s.enc.%s' % (codec, r[0] if r[0] == 'ok' else r[1].split(':')[0]))
@@ -111,7 +114,7 @@ def run(ctx):
                     detail['encoded'] = data.hex()
                 # model correspondence
                 model_rt = model_enc = None
-                if answers is not None and codec in MODELLED:
+                if answers is not None and codec in MODELLED and (ci, vi, codec) in index:
                     j = index[(ci, vi, codec)]
                     model_rt, model_enc = (answers[j] if codec in RT_CODECS else None), answers[j + 1]
                     mine = impl_answer_enc(r)
@@ -127,7 +130,7 @@ def run(ctx):
                 if problem:
                     hyps_ok = model_rt is not None and all(x in model_rt for x in ('wf=T', 'defaults=T', 'hasType=T', 'fragFree=T'))
                     # the Lean finding predicate F_unfragmented (Uper.fragFree) decides for uper, and by proxy for per
-                    if answers is not None and codec in ('per', 'uper'):
+                    if answers is not None and codec in ('per', 'uper') and (ci, vi, 'uper') in index:
                         urt = answers[index[(ci, vi, 'uper')]]
                         if 'fragFree=F' in urt:
                             tags = tags | {'unfragmented'}
@@ -166,7 +169,6 @@ WITNESSES = [
     ('C01-mandatory-addition-missing', 'oer', 'M DEFINITIONS AUTOMATIC TAGS ::= BEGIN A ::= SEQUENCE { ..., m1 BOOLEAN, m5 INTEGER (0..255) } END', 'A', {'m1': True}),
     ('C01-per-unfragmented-length', 'uper', 'M DEFINITIONS AUTOMATIC TAGS ::= BEGIN A ::= INTEGER END', 'A', 1 << (8 * 16400)),
     ('C01-numeric-cstring-default', 'uper', 'M DEFINITIONS AUTOMATIC TAGS ::= BEGIN A ::= SEQUENCE { s PrintableString DEFAULT "0" } END', 'A', {}),
-    ('C01-oid-first-arc-2', 'ber', 'M DEFINITIONS AUTOMATIC TAGS ::= BEGIN A ::= OBJECT IDENTIFIER END', 'A', '2.999.1'),
 ]
 
 
